@@ -97,15 +97,19 @@ def apply_layout(base, home, layout):
             os.symlink(real, evo)
 
 
-def prepare_home(base, scenario, layout="plain"):
+OLD_STAMPS = ["v0.0.1-old", "v1.4.0", "v1.9.2", "v1.12.0", "v1.30.5", "v1.5.1", "v1.31.0", "1.13.5", "v1.8.0", "v2.0.0",
+              "v1.31.1\n", "v0.9"]
+
+
+def prepare_home(base, scenario, layout="plain", stamp=None):
     """returns a HOME path prepared for the scenario (fresh directory)"""
-    home = _prepare_home(base, scenario)
+    home = _prepare_home(base, scenario, stamp)
     if layout != "plain":
         apply_layout(base, home, layout)
     return home
 
 
-def _prepare_home(base, scenario):
+def _prepare_home(base, scenario, stamp=None):
     home = os.path.join(base, "home")
     if os.path.exists(home):
         shutil.rmtree(home)
@@ -124,7 +128,12 @@ def _prepare_home(base, scenario):
             cfg.pop(k)
         cfg["plot_linewidth"] = 7.5  # a user value
         open(os.path.join(evo, "settings.json"), "w").write(json.dumps(cfg, indent=4, sort_keys=True))
-        open(os.path.join(evo, "assets_version"), "w").write("v0.0.1-old")
+        # the stamp of the release that wrote the home (varies with the cell: older and newer
+        # releases, one- and two-digit components, a stamp without the leading "v", a newer one
+        # as left behind by another environment sharing the home)
+        import zlib
+        stamp = stamp or OLD_STAMPS[zlib.crc32(base.encode()) % len(OLD_STAMPS)]
+        open(os.path.join(evo, "assets_version"), "w").write(stamp)
     if scenario.startswith("merge"):
         open(os.path.join(base, "other.json"), "w").write(json.dumps({"plot_split": True, "plot_linewidth": 4.0,
                                                                        "extra_key": "x"}))
@@ -301,14 +310,40 @@ def k_race(run, case):
         shutil.rmtree(base, ignore_errors=True)
 
 
-KINDS = {"crash": k_crash, "race": k_race}
+def k_nocrash(run, case):
+    """
+    The scenario run to completion (no kill, nobody else): it succeeds, the process itself sees
+    every default key, and so does the next start - for homes written by any earlier release.
+    """
+    scenario, stamp = case["scenario"], case["stamp"]
+    base = os.path.join(os.environ.get("VMON_WORK", "."), "nocrash_%s_%d" % (scenario, case["rs"][-1]))
+    os.makedirs(base, exist_ok=True)
+    try:
+        home = prepare_home(base, scenario, stamp=stamp)
+        rc, info, err = child(home, [scenario, "count"])
+        run.seen(case, core.digest(scenario, stamp), cls=["uninterrupted:" + scenario, "home written by release %r" % stamp.strip()],
+                 sample={"scenario": scenario, "stamp": stamp, "rc": rc})
+        run.check(rc == 0, "the uninterrupted command succeeds and sees every default key", case,
+                  "%s on a home stamped %r: exit %s %s %s" % (scenario, stamp, rc, (info or {}).get("err", ""), err[-200:]),
+                  key="upgrade:process-misses-default-keys" if rc == 3 else "nocrash:command-failed")
+        rc2, msg = fresh_start(home)
+        run.check(rc2 == 0, "the next start after an upgrade sees every default key", case,
+                  "start after %s on a home stamped %r fails: %s" % (scenario, stamp, msg), key="upgrade:next-start-fails")
+        state, data = classify(home)
+        run.check(state.startswith("settings:complete"), "settings file complete after the command", case,
+                  "settings file is %s after %s" % (state, scenario), key="nocrash:file-not-complete")
+    finally:
+        shutil.rmtree(base, ignore_errors=True)
+
+
+KINDS = {"crash": k_crash, "race": k_race, "nocrash": k_nocrash}
 
 
 def count_events(run, scenario, layout="plain"):
     base = os.path.join(os.environ.get("VMON_WORK", "."), "count_%s_%s" % (scenario, layout))
     os.makedirs(base, exist_ok=True)
     try:
-        home = prepare_home(base, scenario, layout)
+        home = prepare_home(base, scenario, layout, stamp=OLD_STAMPS[0])
         rc, info, err = child(home, [scenario, "count"])
         if rc != 0 or not info:
             raise core.Inconclusive("cannot count the events of scenario %s (rc=%s %s)" % (scenario, rc, err))
@@ -349,6 +384,9 @@ def main(run):
                     cells.append({"scenario": sc, "K": K, "variant": "kill", "layout": layout})
             for wk in writes:
                 cells.append({"scenario": sc, "K": wk, "variant": "tornhalf", "layout": layout})
+    nocrash = [{"scenario": sc, "stamp": st} for sc in SCENARIOS if sc.startswith("upgrade") for st in OLD_STAMPS]
+    for i in run.mine(len(nocrash)):
+        k_nocrash(run, run.case("nocrash", i, **nocrash[i]))
     run.extra["call_boundaries_per_scenario"] = counts
     run.extra["crash_cells"] = len(cells)
     for i in run.mine(len(cells)):
